@@ -69,6 +69,12 @@ CHECKS = {
              "leaves and an independent symbolic probe value: the schema accepts its value, generates exactly it "
              "without drawing, and accepts the probe iff it is the same value (type-aware); other kinds -> ValueError.",
         design="4/C14"),
+    "C15": dict(
+        text="Bounded symbolic execution of ==/!= on pairs and triples of schemas built from independent symbolic "
+             "parameters, flags and form selectors: reflexive, symmetric, transitive, != is the negation, equal "
+             "schemas give equal verdicts on a symbolic probe (discrimination in contrapositive form), and "
+             "schema == value iff the value validates.",
+        design="4/C15"),
 }
 
 NOT_YET = {
